@@ -5,7 +5,7 @@ from ..core import Violation
 
 ID = 'C17'
 MODULES = ['OFModel.Resize']
-RULE = ('(a) Util.execute_xform_size and (b) VideoReader.thread_reader (maxsize=/resize=) on every (w,h,W,H) in 1..N^4 exhaustively (N=9 quick, 16 thorough) '
+RULE = ('(a) Util.execute_xform_size and (b) VideoReader.thread_reader (maxsize=/resize=) on every (w,h,W,H) in 1..N^4 exhaustively (N=9 quick, 14 thorough) '
         'x every action x both aspect forms, plus random sizes up to 4096 per side incl. extreme aspects (1xN, Nx1), bounds smaller/equal/larger, all interp codes; '
         '(c) Util.execute_xforms on chains of 1-3 transforms (all 13 actions, strings parsed by the real normalize_config) over random 1..8 x 1..8 GRAY/BGR/RGB '
         'pixel arrays, writable or read-only, box coordinates dyadic (exact) or decimal, forced inverse pairs; larger chains without pixel tracking; '
@@ -390,7 +390,7 @@ def case_stream(ctx):
     for m, (w, h, W, H) in [('resize', (100, 50, 200, 50)), ('resize', (100, 50, 100, 80)), ('resize', (100, 50, 30, 40)), ('resize', (1000, 1, 10, 10)),
                             ('resize', (98, 98, 2, 2)), ('maxsize', (49, 49, 1, 1)), ('maxsize', (1000, 1, 10, 10))]:
         yield {'k': 'vsize', 'mode': m, 'aspect': True, 'interp': None, 'w': w, 'h': h, 'W': W, 'H': H}
-    N = 16 if ctx.thorough else (11 if ctx.escalate else 9)
+    N = 14 if ctx.thorough else (11 if ctx.escalate else 9)
     rngN = range(1, N + 1)
     for w in rngN:
         for h in rngN:
@@ -403,8 +403,8 @@ def case_stream(ctx):
                         for m in ('maxsize', 'resize'):
                             if m == 'resize' and not asp and (w + h + W + H) % 4: continue
                             yield {'k': 'vsize', 'mode': m, 'aspect': asp, 'interp': None, 'w': w, 'h': h, 'W': W, 'H': H}
-    nsz, nvs, nch, nbig, nid = (150000, 100000, 40000, 4000, 400000) if ctx.thorough else ((30000, 20000, 6000, 600, 60000) if ctx.escalate else (12000, 8000, 2500, 250, 30000))
-    limit, unc = (1500 * 1500, 0.01) if ctx.thorough else (500 * 500, 0.004)
+    nsz, nvs, nch, nbig, nid = (100000, 60000, 40000, 3000, 400000) if ctx.thorough else ((30000, 20000, 6000, 600, 60000) if ctx.escalate else (12000, 8000, 2500, 250, 30000))
+    limit, unc = (800 * 800, 0.005) if ctx.thorough else (500 * 500, 0.004)
     for _ in range(nsz): yield gen_size(rng, limit, unc)
     for _ in range(nvs): yield gen_vsize(rng, limit, unc)
     for _ in range(nch): yield gen_chain(rng)
